@@ -39,13 +39,29 @@ def _gen_model(ctx, dim):
     return _q(U, dim=dim, var=v, len_scale=l, rescale=s, nugget=n), v
 
 
-@contract(P, "CovModel.spectrum/var-times-density", params={"dim": [1, 2, 3]},
+@contract(P, "CovModel.spectrum/var-times-density", params={"dim": [1, 2, 3], "factor": ["one", "user"]},
           functions=["covmodel/base.py:CovModel.spectrum", "covmodel/base.py:CovModel.spectral_rad_pdf",
                      "covmodel/tools.py:spectral_rad_pdf", "covmodel/tools.py:rad_fac",
-                     "covmodel/base.py:CovModel.ln_spectral_rad_pdf"])
-def spectrum(ctx, dim):
+                     "covmodel/base.py:CovModel.ln_spectral_rad_pdf", "covmodel/base.py:CovModel.var"])
+def spectrum(ctx, dim, factor):
+    """factor=user: a model class that overrides `var_factor` (as the truncated-power-law models do):
+    var = var_raw * var_factor(); the spectrum is the transform of the covariance var * rho, not of the
+    raw intensity"""
     m = ctx.m
-    mod, v = _gen_model(ctx, dim)
+    if factor == "one":
+        mod, v = _gen_model(ctx, dim)
+    else:
+        U = gc.generic_model_class(ctx)
+        vf = ctx.real("var_factor", lo=0.3, hi=3.0)
+        ctx.require(ctx.gt(vf, 0))
+
+        class UF(U):
+            def var_factor(self):
+                return vf
+        v, l, s = ctx.real("var", pos=True), ctx.real("len", pos=True), ctx.real("resc", pos=True)
+        ctx.require(ctx.And(ctx.gt(v, 0), ctx.gt(l, 0), ctx.gt(s, 0)))
+        mod = _q(UF, dim=dim, var=v, len_scale=l, rescale=s)
+        ctx.ensure("var=requested;var_raw=var/var_factor", ctx.And(ctx.eq(mod.var, v), ctx.eq(mod.var_raw * vf, v)))
     k = ctx.real("k", nonneg=True)
     ctx.require(ctx.ge(k, 0))
     dens = mod.spectral_density(k)
@@ -346,6 +362,30 @@ def density_table(ctx, cls, dim, k):
         want = ((L / sqpi) ** d * m.fn("gamma", nu + 1.0) / m.min(m.fn("gamma", nu - d / 2 + 1), 100.0)
                 * m.pow(1.0 - (kv * L) ** 2, nu - d / 2))
     ctx.ensure("density=tabulated-transform", ctx.eq(got, want))
+
+
+@contract(P, "models.spectral_density/integer-wave-numbers-are-numbers",
+          params={"cls": ["Gaussian", "Exponential", "Matern", "Integral", "HyperSpherical", "JBessel", "TPLGaussian",
+                          "TPLExponential", "Stable"], "dim": [1, 2, 3]},
+          functions=["covmodel/models.py:<cls>.spectral_density", "covmodel/base.py:CovModel.spectral_density",
+                     "covmodel/base.py:CovModel.spectrum", "covmodel/base.py:CovModel.spectral_rad_pdf"],
+          bounded="concrete parameters (len_scale 1.7, class defaults otherwise), wave numbers 0, 1, 2, 3 given as python "
+                  "ints, int list, int64 array and float array")
+def density_int_input(ctx, cls, dim):
+    """`k : float` -- a wave number given as an integer is the same number (no integer arithmetic / truncation)"""
+    with symrun.native():
+        mod = _q(getattr(gs, cls), dim=dim, len_scale=1.7)
+        ref = np.asarray(mod.spectral_density(np.array([0.0, 1.0, 2.0, 3.0])), dtype=float)
+        forms = {"int-list": [0, 1, 2, 3], "int64-array": np.arange(4), "tuple": (0, 1, 2, 3)}
+        ok = True
+        for name, kk in forms.items():
+            for fn in ("spectral_density", "spectrum", "spectral_rad_pdf"):
+                want = np.asarray(getattr(mod, fn)(np.array([0.0, 1.0, 2.0, 3.0])), dtype=float)
+                got = np.asarray(getattr(mod, fn)(kk), dtype=float)
+                ok = ok and got.shape == want.shape and bool(np.allclose(got, want, rtol=1e-12, atol=0.0, equal_nan=True))
+        one = float(np.asarray(mod.spectral_density(2)).ravel()[0])
+        ok = ok and bool(np.isclose(one, ref[2], rtol=1e-12, atol=0.0))
+    ctx.ensure("same-values-as-for-float-input", ok)
 
 
 # --- numerical default path: the Hankel transform is set up in the package's Fourier convention -------------
